@@ -218,7 +218,7 @@ def specLine (id : String) (c : Case) (bin : String) (rawDigest : String := "-")
   -- "the unit's statistical assumption": from the unit metadata of ALL input files
   let asParts := tabs.map fun t =>
     (((idxOf c.T t, 0, 0) : Nat × Nat × Nat), s!"{idxOf c.T t}={aName (specAssume (cfg.unitOf t))}")
-  s!"spec {id} cells={joinOr (sorted cells)} resw={joinOr (sorted resw)} gmw={joinOr (sorted gmParts)} assume={joinOr (sorted asParts)} stats=ok colpos=ok hdrcfg=ok order={specOrder} rawcells={rawDigest} bin={bin}"
+  s!"spec {id} cells={joinOr (sorted cells)} resw={joinOr (sorted resw)} gmw={joinOr (sorted gmParts)} assume={joinOr (sorted asParts)} stats=ok labels=ok colpos=ok hdrcfg=ok order={specOrder} rawcells={rawDigest} bin={bin}"
 
 
 def hexStr (s : String) : String := (Bytes.ofString s).toHex
